@@ -62,7 +62,7 @@ def RULE(tier):
             "value, list(q), len, count, durable raw content, sdb.get(key), sdb cnt and the stale flag are compared with a "
             "Python list / insertion-ordered-set model; 'reopen' must come back with exactly the model's content. The same search to "
             "depth-2 from queues built with values (A, AA, AB, BAB) BEFORE they are assigned into the Hold, i.e. that hold content "
-            "(with duplicates) when they first become durable."
+            "(with duplicates) when they first become durable, and on a temp=True store that is closed plainly and re-opened in place."
             % (DEPTH(tier), [" ".join(e) for e in EVENTS["durq"]], [" ".join(e) for e in EVENTS["dusq"]]))
 
 
@@ -87,6 +87,9 @@ def jobs(tier):
         for flav in ("ice", "reg"):
             for pre in PRELOADS:
                 out.append((kind, flav, 0, 1, pre))
+    # a temp=True store (keeps its directory over a plain close, re-opened in place), to the smaller depth
+    for kind in ("durq", "dusq"):
+        out.append((kind, "reg", 0, 1, "", "temp"))
     return out
 
 
@@ -95,8 +98,9 @@ PRELOADS = ["A", "AA", "AB", "BAB"]
 
 # ------------------------------------------------------------------------------------------------ real system
 class QSys:
-    def __init__(self, sb, kind, flav, preload=""):
+    def __init__(self, sb, kind, flav, preload="", temp=False):
         self.sb, self.kind = sb, kind
+        self.temp = temp                # a temp=True store: it keeps its directory over a plain close and is re-opened in place
         self.preload = preload          # values the queue holds BEFORE it is assigned into the Hold (first open only)
         self.handed = []                # the caller's own value objects given to the constructor
         self.vals = FLAVOURS[flav]
@@ -118,7 +122,16 @@ class QSys:
         return got if got is not None else "?" + repr(x)
 
     def open(self):
-        self.sub = during.Subery(name=NAME, headDirPath=self.sb.path, temp=False, reopen=True)
+        if self.temp and self.sub is not None:
+            self.sub.reopen(reuse=True)     # the same store object, re-opened where it was
+        elif self.temp:
+            sbpath = self.sb.path
+
+            class TempSubery(during.Subery):
+                TempHeadDir = sbpath
+            self.sub = TempSubery(name=NAME, temp=True, reopen=True)
+        else:
+            self.sub = during.Subery(name=NAME, headDirPath=self.sb.path, temp=False, reopen=True)
         self.sb.under(self.sub.path)
         if self.preload:
             self.handed = [self.val(c) for c in self.preload]
@@ -303,14 +316,14 @@ def compare(kind, ev, o, model, hist):
     return v
 
 
-def execute(sb, kind, flav, hist, last_only, preload=""):
+def execute(sb, kind, flav, hist, last_only, preload="", temp=False):
     """replays hist on a fresh store; returns (state key, violations, observation).
 
     Cascades are cut: (1) an operation that raises is ONE failure (its message says whether it left a partial effect);
     (2) once the two copies disagree (possible only after a reported violation) behaviour is unspecified, so nothing is
     checked until they agree again; (3) after a violation the model follows the implementation."""
     sb.wipe()
-    s = QSys(sb, kind, flav, preload)
+    s = QSys(sb, kind, flav, preload, temp=temp)
     try:
         model = []
         for c in preload:
@@ -370,11 +383,12 @@ def execute(sb, kind, flav, hist, last_only, preload=""):
 def run_job(job, tier, seed):
     kind, flav, k, n = job[:4]
     pre = job[4] if len(job) > 4 else ""
+    temp = len(job) > 5 and job[5] == "temp"
     acc = Acc(job)
     with Sandbox(TAG) as sb:
         def run(hist):
-            return execute(sb, kind, flav, hist, last_only=True, preload=pre)
-        if pre:
+            return execute(sb, kind, flav, hist, last_only=True, preload=pre, temp=temp)
+        if pre or temp:
             bfs(acc, run, lambda hist, key: EVENTS[kind], maxdepth=DEPTH(tier) - 2)
         else:
             bfs(acc, run, lambda hist, key: EVENTS[kind], maxdepth=DEPTH(tier), first=(int(k), int(n)))
@@ -384,8 +398,9 @@ def run_job(job, tier, seed):
 def replay(job, hist):
     kind, flav = job[0], job[1]
     pre = job[4] if len(job) > 4 else ""
+    temp = len(job) > 5 and job[5] == "temp"
     with Sandbox(TAG) as sb:
-        return execute(sb, kind, flav, [tuple(e) for e in hist], last_only=False, preload=pre)[1]
+        return execute(sb, kind, flav, [tuple(e) for e in hist], last_only=False, preload=pre, temp=temp)[1]
 
 
 def finish(total, tier):
